@@ -886,6 +886,26 @@ pub fn run<C: HCfg>(scn: &Scenario, devs: &Devs, opt: &RunOpt) -> ExecResult {
         for ni in 0..nodes.len() {
             step_node(&mut nodes, ni, rel, scn, &net, &mut cx, &mut bg_ticks, opt);
         }
+        if scn.extra_polls {
+            for (ni, n) in nodes.iter_mut().enumerate() {
+                if n.dead || n.tr.crashed.is_some() || n.tr.is_spec {
+                    continue;
+                }
+                let r = catch_unwind(AssertUnwindSafe(|| {
+                    if let Sess::P(s) = &mut n.sess {
+                        s.poll_remote_clients();
+                    }
+                }));
+                if let Err(p) = r {
+                    let m = panic_msg(p);
+                    cx.v("PANIC", "panic", ni, format!("poll_remote_clients panicked: {m}"));
+                    n.tr.crashed = Some(m);
+                    continue;
+                }
+                let drain = scn.peers[ni].drain;
+                drain_events(n, rel, drain);
+            }
+        }
         rel += 1;
         // stateful exploration: stop at states that were seen before at the same depth
         if let Some(vis) = opt.visited {
